@@ -113,7 +113,9 @@ def install(taps: Taps, ctx: Ctx) -> None:
 def judge(ctx: Ctx, fr: Any, before_results: List[Any], before_gt: List[Any]) -> None:
     tap = "evaluate_frame"
     pf = fr.pass_fail_result
-    params = pf.critical_object_filter_config.filtering_params
+    # the criteria as the configuration object states them (its attributes), not the dictionary the library passes around
+    cc = pf.critical_object_filter_config
+    params = {k: getattr(cc, k, None) for k in ("target_labels", "ignore_attributes", "max_x_position_list", "max_y_position_list", "max_distance_list", "min_distance_list", "min_point_numbers", "confidence_threshold_list", "target_uuids")}
     transforms = fr.frame_ground_truth.transforms
     results = list(fr.object_results)
     crit_gt = list(fr.frame_ground_truth.objects)
@@ -192,6 +194,15 @@ def judge(ctx: Ctx, fr: Any, before_results: List[Any], before_gt: List[Any]) ->
         if ok is not None:
             ctx.count("C03.region_checked")
             ctx.check(ok, "C03/estimate_outside_critical_region_counted", dict(info, est=O.describe(r.estimated_object), ego_xyz=ego_xy(r.estimated_object, transforms)), tap)
+    conf = params.get("confidence_threshold_list")
+    if conf is not None:
+        for r in results:
+            e = r.estimated_object
+            i_ = label_index(params["target_labels"], e.semantic_label.label)
+            if i_ is None or O.is_fp_label(e) or abs(e.semantic_score - conf[i_]) < 1e-12:
+                continue
+            ctx.count("C03.confidence_checked")
+            ctx.check(e.semantic_score > conf[i_], "C03/estimate_below_critical_confidence_counted", dict(info, est=O.describe(e), threshold=conf[i_]), tap)
     for g in crit_gt:
         ok = region_ok(ctx, g, True, params, transforms)
         if ok is not None:
